@@ -14,6 +14,9 @@ from harness.f64 import fkey, tkey, pred, succ
 
 assert_scratch_import()
 from jellyfysh.base.time import Time, inf as TINF  # noqa: E402
+from jellyfysh.scheduler.heap_scheduler import HeapScheduler  # noqa: E402
+from jellyfysh.scheduler.list_scheduler import ListScheduler  # noqa: E402
+from harness.stubs import Handler as StubHandler  # noqa: E402
 
 BIG = 100000
 INF = math.inf
@@ -59,6 +62,31 @@ def table(path):
                     bad = [ops[i] for i in range(6) if got[i] != row[4 + i]]
                     fails.append(dict(what="Time comparison " + ",".join(bad) + (" (objects set by update)" if us or ut else ""),
                                       q0=q0, args=row[:4], got=got, want=row[4:], updated=[us, ut]))
+        # the same order inside the schedulers (heap.c compares quotient, then remainder, in C): whatever is returned, no
+        # live event is smaller according to the model's table of comparisons
+        lt = {(tuple(row[:2]), tuple(row[2:4])): row[4] for row in tab["cmps"]}
+        vals = sorted({k[0] for k in lt})
+        rng = random.Random(q0 % 1000 + 3)
+        for trial in range(400):
+            for name, cls in (("HeapScheduler (heap.c)", HeapScheduler), ("ListScheduler", ListScheduler)):
+                sched = cls()
+                hs = [StubHandler(i) for i in range(5)]
+                at = {h: rng.choice(vals) for h in hs}
+                if all(v[0] == BIG for v in at.values()):
+                    continue
+                for h in rng.sample(hs, len(hs)):
+                    sched.push_event(mk(at[h][0], at[h][1], q0), h)
+                live = set(hs)
+                while live and not all(at[h][0] == BIG for h in live):
+                    n += 1
+                    got = sched.get_succeeding_event()
+                    smaller = [at[g] for g in live if lt.get((at[g], at[got]), 0)]
+                    if got not in live or smaller:
+                        fails.append(dict(what="order of times inside %s differs from the order of Time.tla" % name, q0=q0,
+                                          args=sorted(at[h] for h in live), returned=at.get(got), smaller_live=smaller))
+                        break
+                    sched.trash_event(got)
+                    live.discard(got)
         for sq, sr, tq, tr, want in tab["subs"]:
             n += 1
             got = mk(sq, sr, q0, True) - mk(tq, tr, q0)
